@@ -38,6 +38,7 @@ inductive SE
   | bin (op : Op) (isBool : Bool) (l r : SE)
   | fn (keeps : Bool) (e : SE)            -- a function of a vector: `sort` (keeps the values) or `abs` (does not)
   | agg (keeps : Bool) (e : SE)           -- an aggregation: `sum` / `min` / `max` / `avg` (the value of one sample) or `count`
+  | unlessOn (l r : SE)                   -- `l unless on() r`
 deriving Repr, Inhabited
 
 /-- `Source.Returns` is a vector -/
@@ -49,12 +50,14 @@ def isVec : SE → Bool
   | .bin _ _ l r => isVec l || isVec r
   | .fn _ _ => true
   | .agg _ _ => true
+  | .unlessOn _ _ => true
 
 structure St where
   always : Bool     -- AlwaysReturns
   known : Bool      -- KnownReturn
   num : Int         -- ReturnedNumber
-  dead : Bool       -- IsDead, set by calculateStaticReturn (or passed through it)
+  dead : Bool       -- IsDead, set by calculateStaticReturn (or passed through it) or by the `unless on()` rule
+  cond : Bool       -- IsConditional: a comparison guards the result
 deriving DecidableEq, Repr, Inhabited
 
 /-- `calculateStaticReturn`: the number and the dead flag it returns (`bool` plays no part in it) -/
@@ -62,9 +65,9 @@ def fold (op : Op) (a b : Int) (isDead : Bool) : Int × Bool :=
   if op.isCmp then (if op.holds a b then (a, isDead) else (a, true)) else (op.arith a b, isDead)
 
 def static : SE → St
-  | .num k => { always := true, known := true, num := k, dead := false }
-  | .sel => { always := false, known := false, num := 0, dead := false }
-  | .vector e => { always := true, known := (static e).known, num := if (static e).known then (static e).num else 0, dead := false }
+  | .num k => { always := true, known := true, num := k, dead := false, cond := false }
+  | .sel => { always := false, known := false, num := 0, dead := false, cond := false }
+  | .vector e => { always := true, known := (static e).known, num := if (static e).known then (static e).num else 0, dead := false, cond := false }
   | .neg e => let s := static e; if s.known then { s with num := -s.num } else s
   | .bin op _ l r =>
     let a := static l
@@ -72,19 +75,25 @@ def static : SE → St
     let all := a.always && b.always && a.known && b.known
     if isVec l && isVec r then
       -- one-to-one without on(...): the left source, folded against the right one
-      if all then { a with num := (fold op a.num b.num a.dead).1, dead := (fold op a.num b.num a.dead).2 } else a
+      -- (`checkConditions`: a comparison makes the result conditional)
+      if all then { a with num := (fold op a.num b.num a.dead).1, dead := (fold op a.num b.num a.dead).2, cond := a.cond || op.isCmp }
+      else { a with cond := a.cond || op.isCmp }
     else
       -- no vector matching: the vector side (the left one when neither is a vector) carries the result
       let side := if isVec l then a else if isVec r then b else a
       if all then
         { side with dead := (fold op a.num b.num a.dead).2,
-                    num := if op.isCmp then side.num else (fold op a.num b.num a.dead).1 }
-      else side
+                    num := if op.isCmp then side.num else (fold op a.num b.num a.dead).1,
+                    cond := side.cond || op.isCmp }
+      else { side with cond := side.cond || op.isCmp }
   -- `parseCall` (after fix 5cb81d1): what was known about the argument's number is not known about the function's,
   -- unless the function only sorts or relabels
   | .fn keeps e => let s := static e; if keeps then s else { s with known := false, num := 0 }
   -- `parseAggregation` / `walkAggregation` leave the four flags alone, whatever the aggregation does to the value
   | .agg _ e => static e
+  -- `parseBinOps`, many-to-many, `unless` with `on()`: a right side that always returns something and is not guarded
+  -- by a comparison takes everything away
+  | .unlessOn l r => let s := static l; if (static r).always && !(static r).cond then { s with dead := true } else s
 
 inductive Val
   | s (k : Int)             -- scalar
@@ -121,6 +130,9 @@ def eval : SE → Val
   | .agg keeps e => if keeps then eval e else match eval e with
     | .s k => .s k
     | .v x => .v (x.map fun _ => 1)
+  | .unlessOn l r => match eval l, eval r with
+    | .v x, .v y => if y.isSome then .v none else .v x
+    | a, _ => a
 
 def closed : SE → Bool
   | .num _ => true
@@ -130,11 +142,33 @@ def closed : SE → Bool
   | .bin _ _ l r => closed l && closed r
   | .fn _ e => closed e
   | .agg _ e => closed e
+  | .unlessOn l r => closed l && closed r
+
+/-- no operation between two vectors (where `AlwaysReturns` survives although the result can be empty: recorded finding) -/
+def noVV : SE → Bool
+  | .bin _ _ l r => !(isVec l && isVec r) && noVV l && noVV r
+  | .unlessOn _ _ => false
+  | .vector e => noVV e
+  | .neg e => noVV e
+  | .fn _ e => noVV e
+  | .agg _ e => noVV e
+  | _ => true
+
+/-- the right side of every `unless on()` is free of vector-vector operations -/
+def unlessSimple : SE → Bool
+  | .unlessOn l r => noVV r && unlessSimple l && unlessSimple r
+  | .bin _ _ l r => unlessSimple l && unlessSimple r
+  | .vector e => unlessSimple e
+  | .neg e => unlessSimple e
+  | .fn _ e => unlessSimple e
+  | .agg _ e => unlessSimple e
+  | _ => true
 
 /-- every function and aggregation in the expression keeps the values it is given -/
 def valueKeeping : SE → Bool
   | .fn keeps e => keeps && valueKeeping e
   | .agg keeps e => keeps && valueKeeping e
+  | .unlessOn l r => valueKeeping l && valueKeeping r
   | .vector e => valueKeeping e
   | .neg e => valueKeeping e
   | .bin _ _ l r => valueKeeping l && valueKeeping r
@@ -146,6 +180,7 @@ def boolFree : SE → Bool
   | .neg e => boolFree e
   | .fn _ e => boolFree e
   | .agg _ e => boolFree e
+  | .unlessOn l r => boolFree l && boolFree r
   | _ => true
 
 /-- what the PromQL parser accepts: `vector` takes a scalar, a comparison between two scalars needs `bool` -/
@@ -155,6 +190,7 @@ def wellTyped : SE → Bool
   | .bin op isBool l r => wellTyped l && wellTyped r && (isVec l || isVec r || !op.isCmp || isBool)
   | .fn _ e => isVec e && wellTyped e
   | .agg _ e => isVec e && wellTyped e
+  | .unlessOn l r => isVec l && isVec r && wellTyped l && wellTyped r
   | _ => true
 
 end Pint.StaticFlow
